@@ -54,6 +54,9 @@ AllZero(v) == \A k \in 1..Len(v) : FEq(v[k], "0.0")
 Tiny == "1e-8"     \* kernel_iq.c skips channels whose weight is <= 1e-8
 Term(w, I) == IF FLt(Tiny, w) THEN FMul(w, I) ELSE "0.0"
 
+RECURSIVE VecMaxAbs(_, _, _)
+VecMaxAbs(v, k, m) == IF k > Len(v) THEN m ELSE VecMaxAbs(v, k + 1, FMax(m, FAbs(v[k])))
+
 ApplyMag(e) ==
     LET w == Weights(e.upi, e.upf)
         nq == Len(e.qx)
@@ -68,7 +71,9 @@ ApplyMag(e) ==
        ELSE IF AllZero(e.M0) THEN
             (IF FVecBits(e.Imag, e.Inomag) THEN <<>> ELSE <<"zero-magnitude-is-nonmagnetic", ToString(<<e.Inomag, e.Imag>>)>>)
        ELSE IF ~inputsOK THEN <<"harness-effective-sld", "">>
-       ELSE IF ~FVecNear(e.Imag, expect, "1e-9", "1e-300") THEN <<"spin-channel-sum", ToString(<<"expected", expect, "got", e.Imag>>)>>
+       \* absolute floor: 1e-12 of the largest intensity in the scenario (where the channels cancel to
+       \* rounding noise, e.g. 1e-33 next to values of order 1, a relative comparison is meaningless)
+       ELSE IF ~FVecNear(e.Imag, expect, "1e-9", FMul("1e-12", VecMaxAbs(expect, 1, "0.0"))) THEN <<"spin-channel-sum", ToString(<<"expected", expect, "got", e.Imag>>)>>
        ELSE <<>>
 
 TInit == l = 1 /\ st = 0 /\ TLCSet(1, 0) /\ TLCSet(2, 0)
